@@ -376,8 +376,12 @@ class PSBaseParser:
             self._parse1 = self._parse_float
             return j + 1
         try:
-            self._add_token(int(self._curtoken))
-        except ValueError:
+            number = int(self._curtoken)
+            # An integer beyond the range of a float cannot be used in any
+            # arithmetic: it is dropped like a malformed number.
+            float(number)
+            self._add_token(number)
+        except (ValueError, OverflowError):
             pass
         self._parse1 = self._parse_main
         return j
